@@ -4,45 +4,45 @@ import json, os
 HERE = os.path.dirname(os.path.dirname(os.path.abspath(__file__)))
 
 CHECKS = {
- "C01": ("exploration", "pairwise/3-wise covering sweep of the builder configuration product with sector-straddling file sets, read back against an in-memory model", "reference-model monitor (map) at the API boundary + panic trap", "§6 C01",
+ "C01": ("exploration", "pairwise/3-wise covering sweep of the builder configuration product with sector-straddling file sets, read back against an in-memory model; mixed sets (selector, encryption and way into the builder per file, incl. files from disk), 50-300-file sets, caller-supplied listfiles, names unusual on a file system", "reference-model monitor (map) at the API boundary + panic trap", "§6 C01",
          "held only on the configurations and file sets generated; ADPCM is lossy (length only); names avoid listfile syntax"),
- "C03": ("exploration", "codec sweep selector x content class x length ladder with identity/size/self-acceptance oracle", "identity + size-rule oracle over a boundary-length ladder, panic trap", "§6 C03",
+ "C03": ("exploration", "codec sweep selector x content class x length ladder with identity/size/self-acceptance oracle; selector 0, ADPCM+PKWare selectors, threads on one shared SessionTracker", "identity + size-rule oracle over a boundary-length ladder, panic trap", "§6 C03",
          "native run only; held on the ladder (<= 2^17 quick, <= 2^21 thorough) and 10 content classes"),
  "C04": ("exploration", "exhaustive small sub-spaces (tables, all <=2-byte strings, all 3-byte UTF-8 scalars, cipher lengths 0..17 x 77 keys) plus random long inputs against an independent reference implementation; a slice built with the non-default `simd` feature compares the byte-string hash (incl. invalid UTF-8, vector thresholds, alignments) and runs under ASan in thorough", "differential oracle vs independent reference (regenerated crypt table, lookup3 transcription)", "§6 C04",
          "reference written from the published algorithms in harness/vh-mpq/src/lib.rs; a shared misreading would go unnoticed"),
- "C02": ("exploration", "differential exchange of archives in both directions with an independent MPQ implementation (lib/refmpq.py): every builder-written archive of the published-format subset is parsed and extracted by the reference, every reference-written archive is read by the library; mismatches are diagnosed against named deviation models so other changes stay visible", "differential oracle vs independent implementation, both directions", "§6 C02",
+ "C02": ("exploration", "differential exchange of archives in both directions with an independent MPQ implementation (lib/refmpq.py): every builder-written archive of the published-format subset is parsed and extracted by the reference, every reference-written archive is read by the library; mismatches are diagnosed against named deviation models so other changes stay visible; sector-checksum / attribute archives and on-disk sources in direction A; deferred table loading, list_all / hashes / read_file_by_indices in direction B", "differential oracle vs independent implementation, both directions", "§6 C02",
          "trusted base is an independent reading of the public MPQ format, not StormLib; subset V1/V2, classic tables, none/zlib/bzip2, no sector CRC"),
  "C05": ("exploration", "structured mutation of valid seed files of all 12 formats (every prefix, boundary values at every aligned offset of header/table/chunk-header/count regions located by an independent walker, chunk reorder/duplicate/delete/resize, seeded havoc) driven through every public open/parse/list/read entry point (~150, audited against the crates' public API), each batch in a forked child; thorough adds a coverage-guided stage (libFuzzer + AddressSanitizer over the same drivers) whose kept inputs and artifacts are replayed natively under the same monitors", "panic trap, abort / stack-overflow / allocation-abort attribution per forked batch, heap-request monitor (single request >= 256 MiB or growth >= 512 MiB for inputs <= 4 MiB), per-call time budget with hang confirmation", "§6 C05 / §3 M1-M4",
          "release profile; inputs <= 4 MiB; MPQ seeds from the builder and from the independent writer lib/refmpq.py; four known sites remain (PKWare decoder x2, DXT and JPEG output sized from announced dimensions)"),
- "C06": ("exploration", "operation histories on MutableArchive (bounded-exhaustive singles and pairs over a 98-letter alphabet on up to 16 starting archives, sampled triples, long random histories) checked against a plain map after close + reopen", "reference-model monitor (persistent map) over operation histories; probe-loop step-counter hook for termination", "§6 C06",
+ "C06": ("exploration", "operation histories on MutableArchive (bounded-exhaustive singles and pairs over a 98-letter alphabet on up to 16 starting archives, sampled triples, long random histories) checked against a plain map after close + reopen; LZMA / sparse / fix-key / from-disk additions", "reference-model monitor (persistent map) over operation histories; probe-loop step-counter hook for termination", "§6 C06",
          "five history-level trigger predicates are known findings (V3+ modification, compact without listfile, compact on a stale view, block-table growth past the slack, rename of an encrypted file): histories in which one of them holds are reported under it and not checked further"),
- "C07": ("exploration", "rebuild sweep source configuration x target version x overrides x verify/skip filters with independent re-read of source and target, summary arithmetic and compare_archives agreement", "reference re-read oracle (set/bytes comparison) + summary-count monitor", "§6 C07",
+ "C07": ("exploration", "rebuild sweep source configuration x target version x overrides x verify/skip filters with independent re-read of source and target, summary arithmetic and compare_archives agreement; preserve_order / own choice of version as axes; rebuilds onto the source path", "reference re-read oracle (set/bytes comparison) + summary-count monitor", "§6 C07",
          "a rebuild returning Err is allowed and only tallied; sources without listfile list nothing"),
- "C13": ("exploration", "generated M2 models / skins / anim objects (29 sections each empty/one/many, extreme floats, long names) x 5 versions: write->parse projection equality, byte-identical rewrite, parse -> empty one list -> write -> parse, lists longer than the parsers' pre-allocation caps, same-version and cross-version conversion, independent (count,offset) walker", "reference-model monitor (object before write) + independent offset walker", "§6 C13",
+ "C13": ("exploration", "generated M2 models / skins / anim objects (29 sections each empty/one/many, extreme floats, long names) x 5 versions: write->parse projection equality, byte-identical rewrite, parse -> empty one list -> write -> parse, lists longer than the parsers' pre-allocation caps, same-version and cross-version conversion, independent (count,offset) walker; header versions up to 310, save / load helpers, embedded-skin accessors, explicit-format anim parsing, optimize_memory, writers into occupied cursors", "reference-model monitor (object before write) + independent offset walker", "§6 C13",
          "projection exclusions are listed in evidence; nine writer/parser behaviours are known findings reported under risk=<predicate>"),
- "C15": ("exploration", "generated WMO roots and groups (every list empty/one/many, aliasing string tables, extreme floats) x 5 versions x 25 conversion pairs: parse projections, byte-identical second write, header counts and string offsets via an independent chunk walker; WmoEditor add/remove histories judged by a tally; write_group into streams that hold data in front of / behind the writer", "reference-model monitor + independent chunk walker", "§6 C15",
+ "C15": ("exploration", "generated WMO roots and groups (every list empty/one/many, aliasing string tables, extreme floats) x 5 versions x 25 conversion pairs: parse projections, byte-identical second write, header counts and string offsets via an independent chunk walker; WmoEditor add/remove histories judged by a tally; write_group into streams that hold data in front of / behind the writer; all 11 versions, alternative readers against the walker, editor vertex / texture / bounds operations and accessors with save -> parse of every history", "reference-model monitor + independent chunk walker", "§6 C15",
          "exclusions listed in evidence; derived/unmodelled fields are not compared"),
- "C16": ("exploration", "images x 25 targets x mipmaps x filters: encode->parse equality, mip chain to 1x1, independent mip-table walker (inside file, no overlap), exact raw3 pixels, palette-membership and alpha quantisation for raw1", "reference-model monitor + independent header walker + pixel oracle", "§6 C16",
+ "C16": ("exploration", "images x 25 targets x mipmaps x filters: encode->parse equality, mip chain to 1x1, independent mip-table walker (inside file, no overlap), exact raw3 pixels, palette-membership and alpha quantisation for raw1; Luma / 16-bit / float sources, alternative entry points, mipmap_info, full_jpeg", "reference-model monitor + independent header walker + pixel oracle", "§6 C16",
          "'quantised' admits floor, round or ceil; JPEG/DXT structure only"),
- "C17": ("exploration", "generated schemas x record sets written by an independent DBC encoder; eager, cached, lazy, mmap, parallel and rewrite paths compared with the model and with each other; written size and string de-duplication; hashed and binary-search key lookups; the lazy iterator driven through next/nth/skip/take/step_by/size_hint/count programs; ASan slice for the mmap path (thorough)", "reference-model monitor + independent encoder; AddressSanitizer on the mmap path", "§6 C17",
+ "C17": ("exploration", "generated schemas x record sets written by an independent DBC encoder; eager, cached, lazy, mmap, parallel and rewrite paths compared with the model and with each other; written size and string de-duplication; hashed and binary-search key lookups; the lazy iterator driven through next/nth/skip/take/step_by/size_hint/count programs; ASan slice for the mmap path (thorough); WDB2 / WDB5 containers, schema-less paths, access by name, key by name, stand-alone string blocks, blocks without a leading NUL", "reference-model monitor + independent encoder; AddressSanitizer on the mmap path", "§6 C17",
          "WDBC with schemas only; valid inputs only"),
- "C08": ("exploration", "chain histories (all of length <= 3, sampled longer, all insertion orders x three construction APIs, tied parallel loads) against a priority-list model; generated COPY/BSD0 patches (independent encoder, RLE, bsdiff apply) direct and through PATCH_FILE chains, with every header field and payload region corrupted: result must be Err or carry the declared md5_after", "reference-model monitor (priority list) + independent patch oracle + panic trap + heap-request monitor; task-event hook for parallel open orders", "§6 C08",
+ "C08": ("exploration", "chain histories (all of length <= 3, sampled longer, all insertion orders x three construction APIs, tied parallel loads) against a priority-list model; generated COPY/BSD0 patches (independent encoder, RLE, bsdiff apply) direct and through PATCH_FILE chains, with every header field and payload region corrupted: result must be Err or carry the declared md5_after; extract_files, get_chain_info / get_archive after every operation; chains over V1-V4 archives and encrypted entries", "reference-model monitor (priority list) + independent patch oracle + panic trap + heap-request monitor; task-event hook for parallel open orders", "§6 C08",
          "archives without listfile are outside the workload; ties touched by set_priority may resolve either way"),
- "C11": ("exploration", "hostile entry/listfile names (grammar over .., separators, absolute, drive, UNC, long, unicode) planted by an independent MPQ writer, extracted by the CLI in 12 configurations, incl. names no archive holds (asked for / listed without an entry) and files already standing where a hostile name would lead; two observers of the whole neighbourhood: before/after tree snapshot and strace write-class syscall checker; benign files must still be extracted bit-identically", "file-system snapshot monitor + syscall trace checker (strace) at the process boundary", "§6 C11",
+ "C11": ("exploration", "hostile entry/listfile names (grammar over .., separators, absolute, drive, UNC, long, unicode) planted by an independent MPQ writer, extracted by the CLI in 12 configurations, incl. names no archive holds (asked for / listed without an entry) and files already standing where a hostile name would lead; two observers of the whole neighbourhood: before/after tree snapshot and strace write-class syscall checker; benign files must still be extracted bit-identically; drive prefixes before a root-anchored rest, one change of separator kind inside continuation names", "file-system snapshot monitor + syscall trace checker (strace) at the process boundary", "§6 C11",
          "names that would leave /verif/scratch if honoured are never generated (root-anchored names are anchored inside the sandbox)"),
- "C14": ("exploration", "generated ADT builder inputs (isolated features per version, covering arrays over root and MCNK optional chunks, invalid inputs) x versions: build->bytes->parse equality, 1-4 parse->rebuild rounds stable and non-growing, both reference layouts (MCRF / MCRD+MCRW), dry water tables, independent chunk walker for framing, MHDR and MCIN entries", "reference-model monitor (builder input) + independent chunk walker", "§6 C14",
+ "C14": ("exploration", "generated ADT builder inputs (isolated features per version, covering arrays over root and MCNK optional chunks, invalid inputs) x versions: build->bytes->parse equality, 1-4 parse->rebuild rounds stable and non-growing, both reference layouts (MCRF / MCRD+MCRW), dry water tables, independent chunk walker for framing, MHDR and MCIN entries; cross-version from_root_adt, from_parsed, parse_adt_with_metadata, *_mut accessors, AdtSet on a lone root file", "reference-model monitor (builder input) + independent chunk walker", "§6 C14",
          "exclusions listed in evidence (detected-version label, serializer-computed fields, neutral MTXF, MCIN size convention)"),
- "C19": ("exploration", "model-based single-thread histories over all 30 exported functions with stale/forged/null handles and canary buffers, scripted probes (replace / rename under an open handle, close under failing writes via RLIMIT_FSIZE, names beyond ASCII across the 259-byte find-record limit); threaded runs with call/return logs checked offline (per-handle linearisation of the cursor, no success after close, unique ids); ASan and an overflow-checks build over the same histories, TSan over threaded runs and a Miri slice (thorough)", "handle-table model + canaries + offline linearizability/ordering checker over call logs; AddressSanitizer, ThreadSanitizer, Miri", "§6 C19",
+ "C19": ("exploration", "model-based single-thread histories over all 30 exported functions with stale/forged/null handles and canary buffers, scripted probes (replace / rename under an open handle, close under failing writes via RLIMIT_FSIZE, names beyond ASCII across the 259-byte find-record limit); threaded runs with call/return logs checked offline (per-handle linearisation of the cursor, no success after close, unique ids); ASan and an overflow-checks build over the same histories, TSan over threaded runs and a Miri slice (thorough); a mutating thread against readers on one handle, reissued handle values, NULL pointer arguments, encrypted and signed fixtures", "handle-table model + canaries + offline linearizability/ordering checker over call logs; AddressSanitizer, ThreadSanitizer, Miri", "§6 C19",
          "seek semantics beyond either end not compared; re-entrant callbacks not driven; calls that cannot return on this tree are probed separately on a helper thread"),
- "C20": ("exploration", "the warcraft-rs binary driven on generated inputs: create->extract byte identity over versions x compressions x listfile x extract options, list/info (filters derived from the archive's names judged against a glob model) against the library's view, and every sub-command of every format family on valid, truncated and corrupted inputs judged against the verdict of the library call it wraps (computed in-process) and against the promised output (exists, parses, equals the library writer's bytes)", "process-boundary monitor: exit status / output oracle against the library's own answer; valgrind memcheck on the raw hex-dump paths (thorough)", "§6 C20",
+ "C20": ("exploration", "the warcraft-rs binary driven on generated inputs: create->extract byte identity over versions x compressions x listfile x extract options, list/info (filters derived from the archive's names judged against a glob model) against the library's view, and every sub-command of every format family on valid, truncated and corrupted inputs judged against the verdict of the library call it wraps (computed in-process) and against the promised output (exists, parses, equals the library writer's bytes); validate on 1000-5003-member archives with one damaged member", "process-boundary monitor: exit status / output oracle against the library's own answer; valgrind memcheck on the raw hex-dump paths (thorough)", "§6 C20",
          "a panic exit counts as non-zero but is reported as panic-exit; names avoid listfile syntax and option-like prefixes; known upstream findings (PKWare, bomb ratio) kept out of the workload"),
- "C09": ("exploration", "all nine parallel interfaces x thread counts {1,2,3,7,16,32,default} x batch sizes x request shapes (empty, duplicates incl. interleaved, 999..5200 names, missing names at every kind of position, skip-errors on/off) compared slot by slot with a sequential baseline (fresh handle, fresh thread when a used thread disagrees), each configuration repeated under seeded delays and background CPU load; task-event hook yields completion orders and thread assignments (distinct schedules counted, no-diversity reported); ThreadSanitizer slice (thorough)", "per-slot equality with sequential reads; task-event trace hook (schedule diversity measured); ThreadSanitizer", "§6 C09",
+ "C09": ("exploration", "all nine parallel interfaces x thread counts {1,2,3,7,16,32,default} x batch sizes x request shapes (empty, duplicates incl. interleaved, 999..5200 names, missing names at every kind of position, skip-errors on/off) compared slot by slot with a sequential baseline (fresh handle, fresh thread when a used thread disagrees), each configuration repeated under seeded delays and background CPU load; task-event hook yields completion orders and thread assignments (distinct schedules counted, no-diversity reported); ThreadSanitizer slice (thorough); V2-V4 fixtures, num_threads Some(0), read_file_with_new_handle from user threads, two concurrent callers, async range / limit / read_at legs", "per-slot equality with sequential reads; task-event trace hook (schedule diversity measured); ThreadSanitizer", "§6 C09",
          "no control over the OS scheduler: diversity is induced and measured; TSan reports inside crossbeam-epoch reclamation (fences TSan does not model) are suppressed and counted"),
- "C10": ("fault_enumeration", "byte corruption at enumerated offsets of every protected region (file data, sector offset/CRC tables, attributes, V4 header and tables, signature) of archives carrying each kind of integrity metadata (single-unit files well inside / one byte short of / exactly one sector), plus paired corruptions (checksum zeroed + data flipped, attribute forged to match); verifier per kind as the statement names it; sign/verify/bit-flip sweep of the weak-signature functions", "fault enumeration (every k-th / every offset) with a detection oracle: error or invalid status, or content bit-identical", "§6 C10",
+ "C10": ("fault_enumeration", "byte corruption at enumerated offsets of every protected region (file data, sector offset/CRC tables, attributes, V4 header and tables, signature) of archives carrying each kind of integrity metadata (single-unit files well inside / one byte short of / exactly one sector), plus paired corruptions (checksum zeroed + data flipped, attribute forged to match); verifier per kind as the statement names it; sign/verify/bit-flip sweep of the weak-signature functions; NGIS tails, bzip2 / LZMA / sparse / fix-key sectors, checksums without attributes, table codec, metadata written by MutableArchive or the C API", "fault enumeration (every k-th / every offset) with a detection oracle: error or invalid status, or content bit-identical", "§6 C10",
          "a crash while reading a corrupted archive is tallied (C05's clause) but not judged here; multi-sector sector-checksum verification is a known finding (never compared)"),
- "C12": ("fault_enumeration", "every state-changing syscall of build/compact (V1-V4, dest absent/present/symlink/.tmp-named) and of the C API's SFileCreateArchive is killed or failed (ENOSPC, EIO) with strace inject, plus two-fault sequences and RLIMIT_FSIZE short-write sweeps; a separate process judges the destination path afterwards (old | absent | complete new archive)", "syscall-level fault injection (strace) + post-mortem file-system oracle", "§6 C12",
+ "C12": ("fault_enumeration", "every state-changing syscall of build/compact (V1-V4, dest absent/present/symlink/.tmp-named) and of the C API's SFileCreateArchive is killed or failed (ENOSPC, EIO) with strace inject, plus two-fault sequences and RLIMIT_FSIZE short-write sweeps; a separate process judges the destination path afterwards (old | absent | complete new archive); rebuild_archive (other path / same path / verify), builds with attributes / external listfile / none / sources on disk with read faults, compact v2 / v3 / attributes, SFileCreateArchive2, OpenOptions::create", "syscall-level fault injection (strace) + post-mortem file-system oracle", "§6 C12",
          "process death and I/O errors only, not power loss; faults are confirmed to have fired inside the marker window from each run's own trace"),
- "C18": ("exploration", "generated WDT/WDL definitions x versions round trip against a plain model with an independent chunk walker, all version pairs converted, files loaded with the auto-detecting WDL parser saved as the version they report, and the coordinate pair enumerated for all 4096 tiles (corner, centre, range)", "reference-model monitor + independent chunk walker; exhaustive 64x64 enumeration for the coordinate clause", "§6 C18",
+ "C18": ("exploration", "generated WDT/WDL definitions x versions round trip against a plain model with an independent chunk walker, all version pairs converted, files loaded with the auto-detecting WDL parser saved as the version they report, and the coordinate pair enumerated for all 4096 tiles (corner, centre, range); all 10 WDT and 10 WDL versions, hole accessors, set_version, files behind foreign bytes, setters / accessors", "reference-model monitor + independent chunk walker; exhaustive 64x64 enumeration for the coordinate clause", "§6 C18",
          "reader's version guess is not stored in the file and is compared only through what a save under that label writes; definitions stay within what each version's format carries"),
 }
 NOT_YET = {}
